@@ -352,7 +352,7 @@ func runCheck(o checkOpts) int {
 		}
 		for _, ob := range res.Obligations {
 			if frameOnly {
-				if ob.Kind == "frame" && contains(ob.Props, prop) {
+				if (ob.Kind == "frame" || ob.Kind == "objinv") && contains(ob.Props, prop) {
 					selected = append(selected, ob)
 				}
 				continue
@@ -361,6 +361,21 @@ func runCheck(o checkOpts) int {
 				selected = append(selected, ob)
 			}
 		}
+	}
+	// object invariants: every owner must be a function some run checks
+	if len(w.db.objInvs) > 0 {
+		tset := map[*ssa.Function]*Contract{}
+		for _, c := range w.allTargets() {
+			if c.Fn != nil {
+				tset[c.Fn] = c
+			}
+		}
+		engineErrors = append(engineErrors, objInvHoles(w.prog, w.db, func(fn *ssa.Function) bool {
+			if c := tset[fn]; c != nil {
+				return c.Trusted == "" && !c.Ghost
+			}
+			return !token.IsExported(fn.Name()) && !hasLoops(fn) && w.calledInModule()[fn]
+		})...)
 	}
 	// lemmas
 	for _, l := range w.db.lemmas {
